@@ -92,8 +92,11 @@ func (c *Ctx) Ob(fn *ssa.Function, construct string, at ssa.Instruction, stateme
 	return o
 }
 
-func (o *Obligation) Require(s ...string) *Obligation { o.Required = append(o.Required, s...); return o }
-func (o *Obligation) Note(s ...string) *Obligation    { o.Found = append(o.Found, s...); return o }
+func (o *Obligation) Require(s ...string) *Obligation {
+	o.Required = append(o.Required, s...)
+	return o
+}
+func (o *Obligation) Note(s ...string) *Obligation { o.Found = append(o.Found, s...); return o }
 func (o *Obligation) OK(found ...string) *Obligation {
 	o.Verdict = Discharged
 	o.Found = append(o.Found, found...)
